@@ -583,6 +583,19 @@ func (c *ctx) methodAliasEvents() {
 	}
 }
 
+// joinAcceptAlias: an encrypted join-accept as a receiver holds it - the ciphertext is a sub-slice of a larger receive
+// buffer - is decrypted; the bytes of the buffer outside that sub-slice must not change.
+func (c *ctx) joinAcceptAliasEvents() {
+	for _, n := range []int{12, 28} {
+		ct, backing := withSpare(c.bytesN(n))
+		before := string(backing)
+		phy := lorawan.PHYPayload{MHDR: lorawan.MHDR{MType: lorawan.JoinAccept, Major: lorawan.LoRaWANR1}, MACPayload: &lorawan.DataPayload{Bytes: ct}}
+		copy(phy.MIC[:], c.bytesN(4))
+		res, _ := observeFast(func() error { return phy.DecryptJoinAcceptPayload(c.key()) })
+		c.emit(M{"ev": "methodalias", "up": false, "steps": []interface{}{M{"name": "DecryptJoinAcceptPayload", "err": res, "intact": string(backing) == before}}})
+	}
+}
+
 // bandIso2: two objects of one band are mutated one after the other; the first must keep its state while the
 // second changes, and the second must end exactly like an object that received the same operations alone.
 func (c *ctx) genBandOps(chans []band.VerifChannel, extra bool) []M {
@@ -651,6 +664,7 @@ func drvOwn(c *ctx) error {
 			c.subsliceEvents()
 		}
 		c.methodAliasEvents()
+		c.joinAcceptAliasEvents()
 		c.twoDecodeEvents() // last: it registers a proprietary MAC command in this process
 	case "bands":
 		for i := 0; i < c.n; i++ {
